@@ -307,7 +307,7 @@ pub fn run_c09(report: &Report, budget: &Budget) {
     // Healthy side
     let depth = if thorough { 3 } else { 2 };
     let hb = Budget::new(if thorough { 500 } else { 20 });
-    let st = hist::explore(report, &hb, "C09", depth, thorough, false, &c09_healthy, None, None);
+    let st = hist::explore(report, &hb, "C09", depth, thorough, false, thorough, &c09_healthy, None, None);
     hist::write_stats(report, &st, depth);
     // Damage side
     let srcs = SrcCache::new();
